@@ -1,6 +1,7 @@
 package c16
 
 import (
+	"bytes"
 	"encoding/base64"
 	"errors"
 	"fmt"
@@ -11,6 +12,8 @@ import (
 	"sync"
 
 	"github.com/go-json-experiment/json"
+	"github.com/go-json-experiment/json/jsontext"
+	"pgregory.net/rapid"
 
 	"verif/harness/cov"
 	"verif/harness/ref"
@@ -377,6 +380,24 @@ func RunSem(c SemCase) error {
 				clip(c.Text), chunk, typ, sse.ByteOffset, sse.JSONPointer, want.why, want.ptr, want.start, want.end, se.ByteOffset)
 		}
 	}
+	// The same through a Decoder the caller owns: afterwards the stack indexes
+	// must be plausible (a container cannot hold more elements than bytes were read).
+	{
+		dec := jsontext.NewDecoder(bytes.NewReader(c.Text))
+		var derr error
+		if p := rt.Guard(func() { derr = json.UnmarshalDecode(dec, reflect.New(typ).Interface()) }); p != nil {
+			return fmt.Errorf("UnmarshalDecode(%q) into %v panicked: %v", clip(c.Text), typ, p)
+		}
+		var dse *json.SemanticError
+		if !errors.As(derr, &dse) || string(dse.JSONPointer) != want.ptr {
+			return fmt.Errorf("%s; but UnmarshalDecode on a Decoder returns %v", where, derr)
+		}
+		for d := 1; d <= dec.StackDepth(); d++ {
+			if _, n := dec.StackIndex(d); n < 0 || n > int64(len(c.Text)) {
+				return fmt.Errorf("UnmarshalDecode(%q) into %v failed at %q; afterwards Decoder.StackIndex(%d) reports length %d for a text of %d bytes", clip(c.Text), typ, want.ptr, d, n, len(c.Text))
+			}
+		}
+	}
 	rec.Class("sem:checked:" + want.why)
 	if se.ByteOffset == int64(want.start) {
 		rec.Class("sem:offset==value-start")
@@ -398,5 +419,158 @@ func RunSem(c SemCase) error {
 	} else {
 		rec.Class("sem:depth<2")
 	}
+	return nil
+}
+
+// ---------------------------------------------------------------------------
+// sub-check "msem": the JSONPointer of a marshal-time SemanticError names the
+// Go value that cannot be represented, under every whitespace style (member
+// names are located in the output buffer, so indentation must not shift them).
+
+// firstUnsupported returns the pointer of the first chan/func leaf that a
+// depth-first walk of a value populated by populate meets.
+func firstUnsupported(d *TDesc, ptr string) (string, bool) {
+	switch d.K {
+	case "chan", "func":
+		return ptr, true
+	case "ptr":
+		return firstUnsupported(d.Elem, ptr)
+	case "slice":
+		return firstUnsupported(d.Elem, ptr+"/0")
+	case "array":
+		if d.N == 0 {
+			return "", false
+		}
+		return firstUnsupported(d.Elem, ptr+"/0")
+	case "map":
+		return firstUnsupported(d.Elem, ptr+"/k")
+	case "struct":
+		for i := range d.Fields {
+			if p, ok := firstUnsupported(&d.Fields[i].T, ptr+"/"+d.Fields[i].Name); ok {
+				return p, true
+			}
+		}
+	}
+	return "", false
+}
+
+// populate makes every container hold one element so that a walk reaches the leaves.
+func populate(v reflect.Value, depth int) {
+	if depth > 12 {
+		return
+	}
+	switch v.Kind() {
+	case reflect.Pointer:
+		v.Set(reflect.New(v.Type().Elem()))
+		populate(v.Elem(), depth+1)
+	case reflect.Slice:
+		if v.Type().Elem().Kind() == reflect.Uint8 {
+			return
+		}
+		v.Set(reflect.MakeSlice(v.Type(), 1, 1))
+		populate(v.Index(0), depth+1)
+	case reflect.Array:
+		for i := 0; i < v.Len(); i++ {
+			populate(v.Index(i), depth+1)
+		}
+	case reflect.Map:
+		m := reflect.MakeMap(v.Type())
+		e := reflect.New(v.Type().Elem()).Elem()
+		populate(e, depth+1)
+		m.SetMapIndex(reflect.ValueOf("k").Convert(v.Type().Key()), e)
+		v.Set(m)
+	case reflect.Struct:
+		for i := 0; i < v.NumField(); i++ {
+			populate(v.Field(i), depth+1)
+		}
+	case reflect.Chan:
+		v.Set(reflect.MakeChan(v.Type(), 0))
+	case reflect.Func:
+		v.Set(reflect.MakeFunc(v.Type(), func([]reflect.Value) []reflect.Value { return nil }))
+	}
+}
+
+var msemOpts = []struct {
+	name string
+	opts []json.Options
+}{
+	{"compact", nil},
+	{"Multiline", []json.Options{jsontext.Multiline(true)}},
+	{"WithIndent", []json.Options{jsontext.WithIndent("  "), jsontext.WithIndentPrefix("\t")}},
+	{"SpaceAfterComma+Colon", []json.Options{jsontext.SpaceAfterComma(true), jsontext.SpaceAfterColon(true)}},
+	{"Deterministic+Multiline", []json.Options{json.Deterministic(true), jsontext.Multiline(true)}},
+}
+
+// GenMSem draws a type with unsupported leaves.
+func GenMSem(t *rapid.T) SemCase {
+	typ := genType(t, rapid.IntRange(1, 4).Draw(t, "tdepth"), true)
+	if _, ok := firstUnsupported(&typ, ""); !ok {
+		// no chan/func leaf drawn: put one behind the generated type, two levels down
+		bad := TDesc{K: rapid.SampledFrom([]string{"chan", "func"}).Draw(t, "badleaf")}
+		inner := TDesc{K: "struct", Fields: []FDesc{{Name: "gamma", T: bad}}}
+		if rapid.Bool().Draw(t, "viaslice") {
+			inner = TDesc{K: "slice", Elem: &TDesc{K: "struct", Fields: []FDesc{{Name: "gamma", T: bad}}}}
+		}
+		typ = TDesc{K: "struct", Fields: []FDesc{{Name: "alpha", T: typ}, {Name: "beta", T: inner}}}
+	}
+	return SemCase{Type: typ}
+}
+
+// RunMSem decides one marshal-side case.
+func RunMSem(c SemCase) error {
+	rec.Eval()
+	typ, terr := c.Type.build(0)
+	if terr != nil {
+		rec.Class("msem:type-not-buildable(skipped)")
+		return nil
+	}
+	want, ok := firstUnsupported(&c.Type, "")
+	if !ok {
+		rec.Class("msem:no-unsupported-leaf")
+		return nil
+	}
+	v := reflect.New(typ).Elem()
+	populate(v, 0)
+	for _, o := range msemOpts {
+		var err error
+		var out []byte
+		if p := rt.Guard(func() { out, err = json.Marshal(v.Interface(), o.opts...) }); p != nil {
+			return fmt.Errorf("Marshal of %v (%s) panicked: %v", typ, o.name, p)
+		}
+		var se *json.SemanticError
+		if err == nil {
+			return fmt.Errorf("Marshal of %v (%s) succeeded (%q) although the value holds a chan/func at %q", typ, o.name, clip(out), want)
+		}
+		if !errors.As(err, &se) {
+			rec.Class("msem:other-error(skipped)")
+			return nil
+		}
+		if string(se.JSONPointer) != want {
+			return fmt.Errorf("Marshal of %v (%s): SemanticError{JSONPointer:%q, Err:%v}: the Go value that cannot be represented is at %q", typ, o.name, se.JSONPointer, se.Err, want)
+		}
+		// the same through an Encoder the caller owns, after which the stack
+		// indexes must be plausible (no more elements than bytes written)
+		var buf bytes.Buffer
+		enc := jsontext.NewEncoder(&buf, o.opts...)
+		if p := rt.Guard(func() { err = json.MarshalEncode(enc, v.Interface()) }); p != nil {
+			return fmt.Errorf("MarshalEncode of %v (%s) panicked: %v", typ, o.name, p)
+		}
+		if !errors.As(err, &se) || string(se.JSONPointer) != want {
+			return fmt.Errorf("MarshalEncode of %v (%s): error %v, expected a SemanticError at %q", typ, o.name, err, want)
+		}
+		for d := 1; d <= enc.StackDepth(); d++ {
+			if _, n := enc.StackIndex(d); n < 0 || n > enc.OutputOffset()+int64(buf.Len())+16 {
+				return fmt.Errorf("MarshalEncode of %v (%s) failed at %q; afterwards Encoder.StackIndex(%d) reports length %d with %d bytes written", typ, o.name, want, d, n, enc.OutputOffset())
+			}
+		}
+	}
+	var sb strings.Builder
+	c.Type.key(&sb)
+	fp := cov.FP([]byte("msem"), []byte(sb.String()))
+	if ptrDepth(want) >= 2 {
+		rec.NonTrivial(fp)
+		rec.Sample(fp, func() any { return map[string]any{"sub": "msem", "type": typ.String(), "pointer": want} })
+	}
+	rec.Class("msem:checked")
 	return nil
 }
